@@ -55,8 +55,13 @@ def vary(rnd2, t, eacc):
             acc = rnd2.choice(["r", "w", "rw"])
         return ("F", shp, w, acc)
     if t[0] == "L":
-        return ("L", [vary(rnd2, x, eacc) for x in t[1]])
+        kids = [vary(rnd2, x, eacc) for x in t[1]]
+        if len(kids) >= 2 and kids[0][0] != "F" and rnd2.random() < 0.3:
+            kids = [kids[0]] * len(kids)               # `[channel] * n`: the same layout repeated
+        return ("L", kids)
     items = [(k, vary(rnd2, x, eacc)) for k, x in t[1]]
+    if len(items) >= 2 and items[0][1][0] != "F" and rnd2.random() < 0.2:
+        items[1] = (items[1][0], items[0][1])          # two keys with the same sub-layout (`rx: flags, tx: flags`)
     if len(items) >= 2 and rnd2.random() < 0.35:
         cands = []
         for k, x in items:
@@ -72,22 +77,34 @@ def vary(rnd2, t, eacc):
     return ("D", items)
 
 
-def build(t):
-    """(python field collection, token list) of an abstract tree"""
+def build(t, share=None):
+    """(python field collection, token list) of an abstract tree; with `share` (a random stream) equal
+    sub-collections that occur twice in a dict/list may be the SAME Python object the second time"""
     if t[0] == "F":
         _, shp, w, acc = t
         shape = Color if shp == "e" else unsigned(0) if shp == "z" else unsigned(w) if shp == "u" else signed(w)
         return csr.Field(Probe, shape, acc), ["F", str(w), acc]
+    seen = []          # (abstract subtree, built object, tokens) of non-leaf children of this collection
+
+    def child(x):
+        if share is not None and x[0] != "F":
+            for x0, v0, tk0 in seen:
+                if x0 == x and share.random() < 0.7:
+                    return v0, list(tk0)               # the very same dict / list object again
+        v, tk = build(x, share)
+        if x[0] != "F":
+            seen.append((x, v, tk))
+        return v, tk
     if t[0] == "D":
         d, toks = {}, ["D", str(len(t[1]))]
         for k, x in t[1]:
-            v, tk = build(x)
+            v, tk = child(x)
             d[k] = v
             toks += [k] + tk
         return d, toks
     lst, toks = [], ["L", str(len(t[1]))]
     for x in t[1]:
-        v, tk = build(x)
+        v, tk = child(x)
         lst.append(v)
         toks += tk
     return lst, toks
@@ -98,7 +115,7 @@ def gen_tree(rnd, depth, eacc, rnd2=None):
     t = gen_shape_tree(rnd, depth, eacc)
     if rnd2 is not None:
         t = vary(rnd2, t, eacc)
-    return build(t)
+    return build(t, rnd2)
 
 
 def _paths(toks):
@@ -139,7 +156,16 @@ def run_impl(case):
     try:
         if how == "annot":
             stats["annot"] = 1
-            cls = type("AnnReg", (csr.Register,), {"__annotations__": dict(fields)}, access=eacc)
+            base = csr.Register
+            if rnd.random() < 0.35:
+                # the class under test derives from ANOTHER annotation-defined register class that was
+                # instantiated first: it declares its own fields and must get exactly those
+                other, _ = gen_tree(lib.rng_for(case["seed"], case["idx"], 1131), 0, "rw")
+                if isinstance(other, dict):
+                    base = type("AnnBase", (csr.Register,), {"__annotations__": dict(other)}, access="rw")
+                    base()
+                    stats["annot_subclass"] = 1
+            cls = type("AnnReg", (base,), {"__annotations__": dict(fields)}, access=eacc)
             dut = cls()
         else:
             dut = csr.Register(fields, access=eacc)
@@ -151,6 +177,25 @@ def run_impl(case):
     accs = [f.port.access.value for _, f in flat]
     stats["fields"] = len(flat)
     obs.append(f"reg {dut.element.width} | " + " ".join(f"{path_str(p)}:_:{w}:{a}" for (p, _), w, a in zip(flat, widths, accs)))
+    # what was declared (from the generated collection itself, independently of the model)
+    decl, pos = [], [0]
+
+    def walk():
+        k = toks[pos[0]]
+        if k == "F":
+            decl.append((int(toks[pos[0] + 1]), toks[pos[0] + 2])); pos[0] += 3
+        elif k == "D":
+            n_ = int(toks[pos[0] + 1]); pos[0] += 2
+            for _ in range(n_):
+                pos[0] += 1
+                walk()
+        else:
+            n_ = int(toks[pos[0] + 1]); pos[0] += 2
+            for _ in range(n_):
+                walk()
+    walk()
+    if decl != list(zip(widths, accs)):
+        fails.append(("C11", f"the register was declared with fields (width, access) {decl} in this order, it has {list(zip(widths, accs))}", 0))
     if dut.element.width != sum(widths):
         fails.append(("C11", f"register width {dut.element.width} != sum of field widths {sum(widths)}", 0))
     offs = [sum(widths[:k]) for k in range(len(widths))]
